@@ -578,6 +578,15 @@ class ExtMixin(object):
         self.write_to(self.stdout(), args[0], node)
         return NONE
 
+    def x_sys_stdout_writelines(self, args, kwargs, node, env):
+        if kwargs or len(args) != 1:
+            self.err(node, "sys.stdout.writelines arguments")
+        b = self.stdout()
+        h = getattr(self, "m_BufV_writelines", None)
+        if h is None:
+            self.err(node, "writelines")
+        return h(b, [args[0]], {}, node)
+
     def x_sys_stderr_write(self, args, kwargs, node, env):
         if kwargs or len(args) != 1:
             self.err(node, "sys.stderr.write arguments")
